@@ -695,7 +695,7 @@ func (famLogq) Gen(r *rand.Rand, n int, opt map[string]string) []any {
 
 // arbitrary valid Go regular expressions (well outside the algebra the specification can interpret)
 var wildRegexes = []string{`\d+`, `^a`, `b$`, `(?i)A`, `a{2,3}`, `\bk\b`, `[[:alpha:]]+=`, `.*`, `^$`, `(a|b)+c?`, `[^=]+=[^ ]+`, `\x61`, `(?s).`, `\S+\s\S+`,
-	`k=(a|b)`, `^ab$`, `^a$`, `^(?:abc)$`, `^err$`, `^a b$`, `\pL`, `[\x00-\x1f]`, `a*?b`, `(?:)`, `=\d`, `^.{0,3}$`, `\.`, `e(rr)?`, `(?m)^x`}
+	`k=(a|b)`, `^ab$`, `^a$`, `^(?:abc)$`, `^err$`, `^a b$`, `\pL`, `[\x00-\x1f]`, `a*?b`, `(?:)`, `=\d`, `^.{0,3}$`, `\.`, `e(rr)?`, `(?m)^x`, `.*?a`, `a\.*`, `.*a.*`, `.*`}
 
 func negOp(op string) string {
 	return map[string]string{"eq": "neq", "neq": "eq", "re": "nre", "nre": "re"}[op]
